@@ -2,7 +2,10 @@ module github.com/corazawaf/coraza/v3/verifharness
 
 go 1.25.0
 
-require github.com/corazawaf/coraza/v3 v3.0.0
+require (
+	github.com/corazawaf/coraza/v3 v3.0.0
+	github.com/tidwall/gjson v1.18.0
+)
 
 require (
 	github.com/corazawaf/libinjection-go v0.3.2 // indirect
@@ -13,7 +16,6 @@ require (
 	github.com/kaptinlin/go-i18n v0.1.4 // indirect
 	github.com/kaptinlin/jsonschema v0.4.6 // indirect
 	github.com/petar-dambovaliev/aho-corasick v0.0.0-20250424160509-463d218d4745 // indirect
-	github.com/tidwall/gjson v1.18.0 // indirect
 	github.com/tidwall/match v1.1.1 // indirect
 	github.com/tidwall/pretty v1.2.1 // indirect
 	github.com/valllabh/ocsf-schema-golang v1.0.3 // indirect
